@@ -410,6 +410,9 @@ var incrPinned = []string{
 	"set -e\necho a\nfalse\necho never",
 	"x=1\nunset x\ny=2\necho $x$y",
 	"set -n\necho never",
+	"shopt -s -o nounset\necho \"value: $never_set\"\necho after",
+	"shopt -s -o noglob\necho *\nshopt -u -o noglob\necho *",
+	"set -f\necho *\nset +f\necho *\nshopt -s nullglob\necho nomatch*",
 	"echo a\n! set -n\necho never", // KF-C30-1 witness
 	"set -n -Z\necho never",        // KF-C30-1 witness
 	"f() { return 3; }\nf\necho $?\nreturn 2>/dev/null\necho after",
